@@ -21,6 +21,7 @@ fn main() {
         }
     }));
     rec::install_hooks();
+    case::start_watchdog(25_000);
     let args: Vec<String> = std::env::args().collect();
     let mode = args.get(1).map(|s| s.as_str()).unwrap_or("");
     let stdout = std::io::stdout();
